@@ -5,12 +5,12 @@ package fh
 
 // C08-H4: the handle codec. MakeFh3 produces 16 bytes holding (Ino, Gen)
 // little-endian; MakeFh reads them back; the root handle is (1, 1).
-//@ spec MakeFh
+//@ spec MakeFh(fh3)
 //@   props C08 C11
 //@   ensures [H4-decode] len(fh3.Data) >= 16 ==> result.Ino == le64(fh3.Data, 0) && result.Gen == le64(fh3.Data, 8) @C08
 //@   ensures [H4-short] len(fh3.Data) < 16 ==> result.Ino == 0 && result.Gen == 0 @C08 @C11
 
-//@ spec (Fh).MakeFh3
+//@ spec (Fh).MakeFh3(fh)
 //@   props C08 C11
 //@   ensures [H4-len] len(result.Data) == 16 && fresh(result.Data) @C08 @C11
 //@   ensures [H4-encode] le64(result.Data, 0) == fh.Ino && le64(result.Data, 8) == fh.Gen @C08
